@@ -989,7 +989,7 @@ package server
 //@   at call storeValue#1 before
 //@     assert [C14:changed-namespace-list-written-to-the-named-datasets-own-record] recordName(key) == dataset.ID && value == jsonData
 //@   at call Marshal#1 before
-//@     assert [C14:the-record-written-is-the-serialised-dataset-with-the-new-namespace-list] cast(v, "*server.Dataset") == dataset
+//@     assert [C14,C19:the-record-written-is-the-serialised-dataset-with-the-new-namespace-list-already-in-place] cast(v, "*server.Dataset") == dataset && dataset.PublicNamespaces == newNamespacesArray
 //@   at call storeValue#1
 //@     ghost persistedNsG := ($result == nil) ? put(persistedNsG, dataset, arrOf(dataset.PublicNamespaces)) : persistedNsG
 //@   loop 1
@@ -1057,7 +1057,7 @@ package server
 //@   pure
 
 //@ unit (*Store).ExecuteTransaction
-//@   prop C04 C05 C01 C03 C06 C19
+//@   prop C04 C05 C01 C03 C06 C19 C13
 //@   ghost idsCommittedG bool = false
 //@   ghost countedG strset = emptystrset()
 //@   ghost allCountedG bool = false
@@ -1085,7 +1085,7 @@ package server
 //@     assume [TRUSTED-data-invariant:registered-datasets-are-constructed-with-an-open-store] ds != nil && ds.store != nil && lockLevel(lockerAddr(ds.store.idmux)) == 4
 //@     assert [C04,C13:the-id-transaction-committed-is-that-of-the-written-datasets-own-store] $arg0 == ds.store
 //@   at call Commit#1 before
-//@     assert [C04:ids-committed-before-data] $arg0 == txnG && (forall n string :: has(datasets, n) ==> datasets[n].store.idtxn == nil)
+//@     assert [C04,C13:ids-committed-before-data] $arg0 == txnG && (forall n string :: has(datasets, n) ==> datasets[n].store.idtxn == nil)
 //@   at call updateDataset#1 before
 //@     assert [C19:a-datasets-counter-grows-by-its-own-number-of-first-seen-ids] newItemCount == updateCountsPerDataset[k] && has(updateCountsPerDataset, k)
 //@     ghost countedG := add(countedG, k)
